@@ -324,6 +324,7 @@ package gkvlite
 //@   ensures [C14,C02,C13] rec-aggregates: result == nil && old(emptyLoc(nloc.loc) && nloc.node != nil) ==> fbe64(fbytes[o.file], old(o.size) + 36) == old(nloc.node.numNodes) && fbe64(fbytes[o.file], old(o.size) + 44) == old(nloc.node.numBytes)
 //@   ensures [C09,C03] append-only: io.minoff[o.file] >= min(old(io.minoff[o.file]), old(o.size)) && samePrefix(fbytes[o.file], old(fbytes[o.file]), old(o.size))
 //@   ensures [C03] at-most-one-write: io.writes <= old(io.writes) + 1 && io.writes >= old(io.writes) && o.size >= old(o.size)
+//@   ensures [C07,C02,C03] assigned-locations-are-covered-by-size: forall x: *nodeLoc :: x.loc != old(x.loc) ==> locOff(x.loc) + locLen(x.loc) <= o.size
 //@   ensures [C09] other-files: forall f :: f != o.file ==> fbytes[f] == old(fbytes[f]) && flen[f] == old(flen[f]) && io.minoff[f] == old(io.minoff[f])
 
 // ===========================================================================
@@ -477,6 +478,7 @@ package gkvlite
 //@   ensures [C14,C02] default-value: err == nil && old(emptyLoc(iloc.loc)) && c.store.callbacks.ItemValWrite == nil ==> agree(fbytes[c.store.file], content(old(iloc.item).Val), off(old(iloc.item).Val), old(c.store.size) + 16 + len(old(iloc.item).Key), len(old(iloc.item).Val))
 //@   ensures [C09,C03] append-only: io.minoff[c.store.file] >= min(old(io.minoff[c.store.file]), old(c.store.size)) && samePrefix(fbytes[c.store.file], old(fbytes[c.store.file]), old(c.store.size))
 //@   ensures [C09,C03] monotone: io.writes >= old(io.writes) && c.store.size >= old(c.store.size)
+//@   ensures [C07,C02,C03] assigned-locations-are-covered-by-size: forall x: *itemLoc :: x.loc != old(x.loc) ==> locOff(x.loc) + locLen(x.loc) <= c.store.size
 //@   ensures [C09] other-files: forall f :: f != c.store.file ==> fbytes[f] == old(fbytes[f]) && flen[f] == old(flen[f]) && io.minoff[f] == old(io.minoff[f])
 
 //@ func (*itemLoc).read
@@ -719,7 +721,7 @@ package gkvlite
 //@   relies chained-version-is-distinct: r.chainedRootNodeLoc != r
 //@   modifies rootNodeLoc.refs, rootNodeLoc.root, rootNodeLoc.next, rootNodeLoc.chainedCollection, rootNodeLoc.chainedRootNodeLoc, node.numNodes, node.numBytes, node.next, itemLoc.loc, itemLoc.item, nodeLoc.loc, nodeLoc.node, nodeLoc.next, mem.ptr, G.freeNodes, G.freeNodeLocs, G.freeRootNodeLocs, AllocStats.CurFreeNodes, AllocStats.FreeNodes, AllocStats.CurFreeNodeLocs, AllocStats.FreeNodeLocs, AllocStats.CurFreeRootNodeLocs, AllocStats.FreeRootNodeLocs, ghost net, ghost tvs
 //@   decreases chainlen(r) + 1
-//@   ensures [C10,C04] R5-still-referenced-means-untouched: old(r.refs) > 1 ==> r.refs == old(r.refs) - 1 && freeNodes == old(freeNodes) && freeNodeLocs == old(freeNodeLocs) && freeRootNodeLocs == old(freeRootNodeLocs) && net == old(net) && node.next == old(node.next) && nodeLoc.node == old(nodeLoc.node) && nodeLoc.loc == old(nodeLoc.loc) && itemLoc.item == old(itemLoc.item) && rootNodeLoc.root == old(rootNodeLoc.root) && tvs == old(tvs) && nodeLoc.next == old(nodeLoc.next) && rootNodeLoc.next == old(rootNodeLoc.next) && rootNodeLoc.chainedCollection == old(rootNodeLoc.chainedCollection) && rootNodeLoc.chainedRootNodeLoc == old(rootNodeLoc.chainedRootNodeLoc)
+//@   ensures [C10,C04] R5-still-referenced-means-untouched: old(r.refs) > 1 ==> r.refs == old(r.refs) - 1 && freeNodes == old(freeNodes) && freeNodeLocs == old(freeNodeLocs) && freeRootNodeLocs == old(freeRootNodeLocs) && net == old(net) && node.next == old(node.next) && nodeLoc.node == old(nodeLoc.node) && nodeLoc.loc == old(nodeLoc.loc) && itemLoc.loc == old(itemLoc.loc) && itemLoc.item == old(itemLoc.item) && rootNodeLoc.root == old(rootNodeLoc.root) && tvs == old(tvs) && nodeLoc.next == old(nodeLoc.next) && rootNodeLoc.next == old(rootNodeLoc.next) && rootNodeLoc.chainedCollection == old(rootNodeLoc.chainedCollection) && rootNodeLoc.chainedRootNodeLoc == old(rootNodeLoc.chainedRootNodeLoc)
 //@   ensures [C10] R5-only-this-count: old(r.refs) > 1 ==> forall x :: x != r ==> rootNodeLoc.refs[x] == old(rootNodeLoc.refs[x])
 //@   ensures [C10,C15,C04] R4-last-release-also-releases-the-chained-successor: old(r.refs) <= 1 && old(r.chainedCollection) != nil && old(r.chainedRootNodeLoc) != nil && old(r.chainedRootNodeLoc.refs) > 1 ==> old(r.chainedRootNodeLoc).refs == old(r.chainedRootNodeLoc.refs) - 1
 //@   ensures [C10,C04] R7-last-release-frees-only-this-version: old(r.refs) <= 1 && (old(r.chainedCollection) == nil || old(r.chainedRootNodeLoc) == nil) ==> (forall x {tvs[x]} :: x != old(r.root) ==> tvs[x] == old(tvs)[x]) && (forall v {rootNodeLoc.root[v]} {rootNodeLoc.refs[v]} {rootNodeLoc.next[v]} {rootNodeLoc.chainedCollection[v]} {rootNodeLoc.chainedRootNodeLoc[v]} :: v != r ==> rootNodeLoc.root[v] == old(rootNodeLoc.root[v]) && rootNodeLoc.refs[v] == old(rootNodeLoc.refs[v]) && rootNodeLoc.next[v] == old(rootNodeLoc.next[v]) && rootNodeLoc.chainedCollection[v] == old(rootNodeLoc.chainedCollection[v]) && rootNodeLoc.chainedRootNodeLoc[v] == old(rootNodeLoc.chainedRootNodeLoc[v]))
@@ -740,7 +742,7 @@ package gkvlite
 //@   relies not-on-the-free-list: r.next == nil
 //@   relies root-loc-not-on-the-free-list: r.root != nil ==> r.root.next == nil
 //@   modifies rootNodeLoc.refs, rootNodeLoc.root, rootNodeLoc.next, rootNodeLoc.chainedCollection, rootNodeLoc.chainedRootNodeLoc, node.numNodes, node.numBytes, node.next, itemLoc.loc, itemLoc.item, nodeLoc.loc, nodeLoc.node, nodeLoc.next, mem.ptr, G.freeNodes, G.freeNodeLocs, G.freeRootNodeLocs, AllocStats.CurFreeNodes, AllocStats.FreeNodes, AllocStats.CurFreeNodeLocs, AllocStats.FreeNodeLocs, AllocStats.CurFreeRootNodeLocs, AllocStats.FreeRootNodeLocs, ghost net, ghost tvs
-//@   ensures [C10,C04,C05] R5-still-referenced-means-untouched: old(r.refs) > 1 ==> r.refs == old(r.refs) - 1 && freeNodes == old(freeNodes) && freeNodeLocs == old(freeNodeLocs) && freeRootNodeLocs == old(freeRootNodeLocs) && net == old(net) && node.next == old(node.next) && nodeLoc.node == old(nodeLoc.node) && nodeLoc.loc == old(nodeLoc.loc) && itemLoc.item == old(itemLoc.item) && rootNodeLoc.root == old(rootNodeLoc.root) && tvs == old(tvs) && nodeLoc.next == old(nodeLoc.next) && rootNodeLoc.next == old(rootNodeLoc.next) && rootNodeLoc.chainedCollection == old(rootNodeLoc.chainedCollection) && rootNodeLoc.chainedRootNodeLoc == old(rootNodeLoc.chainedRootNodeLoc)
+//@   ensures [C10,C04,C05] R5-still-referenced-means-untouched: old(r.refs) > 1 ==> r.refs == old(r.refs) - 1 && freeNodes == old(freeNodes) && freeNodeLocs == old(freeNodeLocs) && freeRootNodeLocs == old(freeRootNodeLocs) && net == old(net) && node.next == old(node.next) && nodeLoc.node == old(nodeLoc.node) && nodeLoc.loc == old(nodeLoc.loc) && itemLoc.loc == old(itemLoc.loc) && itemLoc.item == old(itemLoc.item) && rootNodeLoc.root == old(rootNodeLoc.root) && tvs == old(tvs) && nodeLoc.next == old(nodeLoc.next) && rootNodeLoc.next == old(rootNodeLoc.next) && rootNodeLoc.chainedCollection == old(rootNodeLoc.chainedCollection) && rootNodeLoc.chainedRootNodeLoc == old(rootNodeLoc.chainedRootNodeLoc)
 //@   ensures [C10] R5-only-this-count: old(r.refs) > 1 ==> forall x :: x != r ==> rootNodeLoc.refs[x] == old(rootNodeLoc.refs[x])
 //@   ensures [C10,C04] R7-last-release-frees-only-this-version: old(r.refs) <= 1 && (old(r.chainedCollection) == nil || old(r.chainedRootNodeLoc) == nil) ==> (forall x {tvs[x]} :: x != old(r.root) ==> tvs[x] == old(tvs)[x]) && (forall v {rootNodeLoc.root[v]} {rootNodeLoc.refs[v]} {rootNodeLoc.next[v]} {rootNodeLoc.chainedCollection[v]} {rootNodeLoc.chainedRootNodeLoc[v]} :: v != r ==> rootNodeLoc.root[v] == old(rootNodeLoc.root[v]) && rootNodeLoc.refs[v] == old(rootNodeLoc.refs[v]) && rootNodeLoc.next[v] == old(rootNodeLoc.next[v]) && rootNodeLoc.chainedCollection[v] == old(rootNodeLoc.chainedCollection[v]) && rootNodeLoc.chainedRootNodeLoc[v] == old(rootNodeLoc.chainedRootNodeLoc[v]))
 
@@ -897,6 +899,7 @@ package gkvlite
 //@   ensures [C09,C03] bytes-below-old-size-unchanged: samePrefix(fbytes[t.store.file], old(fbytes[t.store.file]), old(t.store.size))
 //@   ensures [C09] other-files: forall f :: f != t.store.file ==> fbytes[f] == old(fbytes[f]) && flen[f] == old(flen[f]) && io.minoff[f] == old(io.minoff[f])
 //@   ensures [C02] locations-only-appear: forall x: *itemLoc :: !old(emptyLoc(x.loc)) ==> x.loc == old(x.loc)
+//@   ensures [C07,C02,C03] assigned-locations-are-covered-by-size: forall x: *itemLoc :: x.loc != old(x.loc) ==> locOff(x.loc) + locLen(x.loc) <= t.store.size
 //@   ensures [C02] own-item-located: err == nil && nloc != nil && emptyLoc(nloc.loc) && nloc.node != nil ==> !emptyLoc(nloc.node.item.loc)
 
 //@ func (*Collection).writeNodes
@@ -913,6 +916,7 @@ package gkvlite
 //@   ensures [C09,C03] bytes-below-old-size-unchanged: samePrefix(fbytes[t.store.file], old(fbytes[t.store.file]), old(t.store.size))
 //@   ensures [C09] other-files: forall f :: f != t.store.file ==> fbytes[f] == old(fbytes[f]) && flen[f] == old(flen[f]) && io.minoff[f] == old(io.minoff[f])
 //@   ensures [C02] locations-only-appear: forall x: *nodeLoc :: !old(emptyLoc(x.loc)) ==> x.loc == old(x.loc)
+//@   ensures [C07,C02,C03] assigned-locations-are-covered-by-size: forall x: *nodeLoc :: x.loc != old(x.loc) ==> locOff(x.loc) + locLen(x.loc) <= t.store.size
 //@   ensures [C02,C14] P2-persisted-or-empty: err == nil && nloc != nil ==> !emptyLoc(nloc.loc) || nloc.node == nil
 
 //@ func (*Collection).write
@@ -926,10 +930,11 @@ package gkvlite
 //@   ensures [C09,C03] bytes-below-old-size-unchanged: samePrefix(fbytes[t.store.file], old(fbytes[t.store.file]), old(t.store.size))
 //@   ensures [C09] other-files: forall f :: f != t.store.file ==> fbytes[f] == old(fbytes[f]) && flen[f] == old(flen[f]) && io.minoff[f] == old(io.minoff[f])
 //@   ensures [C02] root-persisted-or-empty: result == nil && nloc != nil ==> !emptyLoc(nloc.loc) || nloc.node == nil
+//@   ensures [C07,C02,C03] assigned-locations-are-covered-by-size: (forall x: *itemLoc :: x.loc != old(x.loc) ==> locOff(x.loc) + locLen(x.loc) <= t.store.size) && (forall x: *nodeLoc :: x.loc != old(x.loc) ==> locOff(x.loc) + locLen(x.loc) <= t.store.size)
 
 //@ func (*Store).Flush$1
 //@   inline
-//@   loop 0 modifies rootNodeLoc.refs, rootNodeLoc.root, rootNodeLoc.next, rootNodeLoc.chainedCollection, rootNodeLoc.chainedRootNodeLoc, node.numNodes, node.numBytes, node.next, itemLoc.loc, itemLoc.item, nodeLoc.loc, nodeLoc.node, nodeLoc.next, mem.ptr, G.freeNodes, G.freeNodeLocs, G.freeRootNodeLocs, AllocStats.CurFreeNodes, AllocStats.FreeNodes, AllocStats.CurFreeNodeLocs, AllocStats.FreeNodeLocs, AllocStats.CurFreeRootNodeLocs, AllocStats.FreeRootNodeLocs, ghost net, ghost tvs
+//@   loop 0 modifies rootNodeLoc.refs, rootNodeLoc.root, rootNodeLoc.next, rootNodeLoc.chainedCollection, rootNodeLoc.chainedRootNodeLoc, node.numNodes, node.numBytes, node.next, itemLoc.item, nodeLoc.node, nodeLoc.next, mem.ptr, G.freeNodes, G.freeNodeLocs, G.freeRootNodeLocs, AllocStats.CurFreeNodes, AllocStats.FreeNodes, AllocStats.CurFreeNodeLocs, AllocStats.FreeNodeLocs, AllocStats.CurFreeRootNodeLocs, AllocStats.FreeRootNodeLocs, ghost net, ghost tvs
 //@   loop 0 invariant -1 <= rangeindex && rangeindex < len(cnames)
 //@   loop 0 invariant [C04,C01,C02] still-pinned: forall j in cnames :: j > rangeindex ==> rootNodeLoc.refs[rnls[cnames[j]]] >= 2
 //@   loop 0 invariant [C04,C01,C02] releasing-a-pin-changes-no-contents: tvs == old(tvs) && rootNodeLoc.root == old(rootNodeLoc.root)
@@ -953,6 +958,7 @@ package gkvlite
 //@   ensures [C09] other-files: forall f :: f != s.file ==> fbytes[f] == old(fbytes[f]) && flen[f] == old(flen[f]) && io.minoff[f] == old(io.minoff[f])
 //@   ensures [C01,C02,C04] flush-changes-no-contents: tvs == old(tvs) && ias == old(ias) && rootNodeLoc.root == old(rootNodeLoc.root)
 //@   ensures [C03,C02,C14,C08,C01] commit-point-is-last: result == nil ==> magicEndAt(fbytes[s.file], s.size) && s.size >= old(s.size) + 46
+//@   ensures [C07,C02,C03] assigned-locations-are-covered-by-size: (forall x: *itemLoc :: x.loc != old(x.loc) ==> locOff(x.loc) + locLen(x.loc) <= s.size) && (forall x: *nodeLoc :: x.loc != old(x.loc) ==> locOff(x.loc) + locLen(x.loc) <= s.size)
 //@   loop 0 modifies rootNodeLoc.refs, mapcontent(rnls)
 //@   loop 0 invariant -1 <= rangeindex && rangeindex < len(cnames)
 //@   loop 0 invariant [C04] pins-only-add: (forall r {rootNodeLoc.refs[r]} :: rootNodeLoc.refs[r] >= old(rootNodeLoc.refs)[r]) && (forall j in cnames :: j <= rangeindex ==> rootNodeLoc.refs[coll[cnames[j]].root] >= old(rootNodeLoc.refs)[coll[cnames[j]].root] + 1)
@@ -961,6 +967,7 @@ package gkvlite
 //@   loop 1 modifies itemLoc.loc, nodeLoc.loc, s.size, new ploc.Offset, new ploc.Length, new mem.byte, ghost fbytes, ghost flen, ghost io.fails, ghost io.writes, ghost io.minoff
 //@   loop 1 invariant -1 <= rangeindex && rangeindex < len(cnames)
 //@   loop 1 invariant [C07] no-io-failure-so-far: io.fails == old(io.fails)
+//@   loop 1 invariant [C07,C02,C03] assigned-locations-are-covered-so-far: (forall x: *itemLoc :: x.loc != old(x.loc) ==> locOff(x.loc) + locLen(x.loc) <= s.size) && (forall x: *nodeLoc :: x.loc != old(x.loc) ==> locOff(x.loc) + locLen(x.loc) <= s.size)
 //@   loop 1 invariant [C09,C03] appended-only-so-far: s.size >= old(s.size) && io.writes >= old(io.writes) && io.minoff[s.file] >= min(old(io.minoff[s.file]), old(s.size)) && samePrefix(fbytes[s.file], old(fbytes[s.file]), old(s.size)) && (forall f :: f != s.file ==> fbytes[f] == old(fbytes[f]) && flen[f] == old(flen[f]) && io.minoff[f] == old(io.minoff[f]))
 //@   loop 1 decreases len(cnames) - rangeindex
 
